@@ -1,2 +1,1023 @@
-// Package c13 will hold the check for property C13.
+// Package c13 decides C13: a POP3 session is a stable snapshot of the mailbox taken at login, and
+// its deletions are committed only by QUIT.  Real POP3 sessions (QConn -> startSession -> real
+// store) are driven one command line at a time with sequences from a grammar while the harness
+// adds and removes messages in the same mailbox directly through the store.  The oracle is the
+// reference model M-pop3 over observed replies plus the store contents after the session ended.
 package c13
+
+import (
+	"fmt"
+	"net/mail"
+	"os"
+	"regexp"
+	"sort"
+	"strconv"
+	"strings"
+	"time"
+
+	"verifharness/internal/fw"
+	"verifharness/internal/gen"
+	"verifharness/internal/sut"
+)
+
+func init() {
+	fw.Register(&fw.Prop{
+		ID:    "C13",
+		Level: "exploration",
+		Rule: "stream 'session': mailbox 'main' with 0-8 messages (0 B - 100 KiB, with and without final newline, dot lines) plus a second mailbox, " +
+			"on both back ends; 5-40 command lines per session from a progress-biased grammar: USER/PASS/APOP in every order and arity, " +
+			"STAT/LIST/UIDL/DELE/RETR/TOP with no, valid, deleted, 0, negative, n+1, non-numeric, 2^31-1, 2^31, 2^32+1, 2^63, 2^64, signed, zero-padded, extra and " +
+			"double-spaced arguments, RSET, NOOP, CAPA, STLS, unknown verbs, empty and 1 MiB lines, mixed-case verbs; ending by QUIT (any state) or by " +
+			"closing after any command; between commands the harness adds/removes messages in the same mailbox through the store. Oracle: M-pop3 " +
+			"(snapshot taken by the harness immediately before the login command; marks tracked from observed replies) for every reply in TRANSACTION " +
+			"state, one reply per command, and the store after the session = live contents minus exactly the marked ids after QUIT in TRANSACTION, " +
+			"unchanged otherwise. A session is non-trivial when it logged in and >=1 model comparison was made; distinct by back end, mailbox size, " +
+			"ending and the set of (command kind, argument class, outcome) triples.",
+		Assumptions: []string{
+			"sessions are served through VerifServeConn (the real startSession) on an in-memory net.Conn",
+			"the mailbox of a session is the single argument of the most recent acknowledged 'USER name' (or the first argument of 'APOP name digest'); logins through other shapes that are acknowledged are only checked for reply shape and for an unchanged store when nothing was marked",
+			"arguments that are not a plain decimal number alone (sign, leading zero, extra arguments, doubled or trailing spaces) may be refused or be read as their first number; either is accepted",
+			"RETR/TOP content is only required to be message n (unique marker line present), dot-terminated; RETR/TOP of a message marked deleted, or removed from the store by another party during the session, is not judged",
+			"a number followed by the word 'messages' in the first line of a login/LIST/UIDL reply is taken to be a message count",
+		},
+		MinObs: func(tier string) map[string]int64 {
+			return map[string]int64{
+				"sessions:mem": 100, "sessions:file": 100,
+				"logins_user_pass": 100, "logins_apop": 50, "logins_noncanonical": 5,
+				"stat_compared": 200, "list_compared": 200, "uidl_compared": 200, "list_n_compared": 100, "uidl_n_compared": 100,
+				"dele_marked": 200, "dele_refused_already_marked": 20, "rset_with_marks": 30,
+				"retr_compared": 100, "top_compared": 50,
+				"compared_after_external_add": 50, "compared_after_external_remove": 50, "external_change_between_user_and_pass": 30,
+				"end:quit-transaction-with-marks": 50, "end:close-with-marks": 50, "end:quit-authorization": 10,
+				"end:quit-transaction-no-marks": 10,
+				"store_compared_after_session":  400,
+				"kind:long-1m":                  3, "kind:empty": 20, "kind:unknown": 20,
+				"arg:2^31": 5, "arg:2^64": 5, "arg:2^32+1": 5, "arg:zero": 20, "arg:negative": 20, "arg:over": 20, "arg:nonnumeric": 20,
+				"arg:extra": 10, "arg:double-space": 10, "arg:marked": 30,
+			}
+		},
+		// Generous: file-store sessions stall for minutes when other runs saturate the disk.
+		ChildTimeout: func(tier string) time.Duration {
+			if tier == "thorough" {
+				return 90 * time.Minute
+			}
+			return 20 * time.Minute
+		},
+		Run: run,
+	})
+}
+
+func run(c *fw.Ctx) {
+	c.Cases("session", c.N(6000, 60000), func(i int, r *fw.Rand) {
+		runSession(c, i, r)
+	})
+}
+
+// snapMsg is one message of the snapshot S taken by the harness before the login command.
+type snapMsg struct {
+	id     string
+	size   int64
+	marker string // unique line contained in the source ("" if the message is too small to carry one)
+}
+
+type psess struct {
+	c       *fw.Ctx
+	r       *fw.Rand
+	idx     int
+	backend string
+	env     *sut.Env
+	ps      *sut.POP3Session
+
+	// observed session state
+	state     string // AUTH | TRANS | LENIENT
+	user      string
+	userKnown bool
+	box       string
+	S         []snapMsg
+	marked    []bool
+	anyDele   bool
+
+	// the store as the harness knows it: mailbox -> ordered ids
+	live      map[string][]string
+	removedBy map[string]bool // ids of S the harness removed during the session
+	extAdd    bool            // harness added to box since login
+	extRem    bool            // harness removed from box since login
+	uniq      int
+
+	events   map[string]bool
+	compared int
+	failed   bool
+	over     bool
+	ending   string
+}
+
+func (s *psess) fail(key, what string) {
+	s.failed = true
+	tr := s.ps.Trace
+	if len(tr) > 40 {
+		tr = tr[len(tr)-40:]
+	}
+	var snap []string
+	for i, m := range s.S {
+		snap = append(snap, fmt.Sprintf("%d:%s:%d:marked=%v", i+1, m.id, m.size, s.marked[i]))
+	}
+	s.c.Violation("C13:"+key, what, map[string]any{"backend": s.backend, "mailbox": s.box, "snapshot": snap,
+		"live": s.live, "trace_tail": tr})
+}
+
+var markerRE = regexp.MustCompile(`X-Uniq: [0-9a-z-]+`)
+
+// genSource builds a message source of a sampled size class.
+func (s *psess) genSource() (src []byte, marker string) {
+	r := s.r
+	s.uniq++
+	marker = fmt.Sprintf("X-Uniq: u%d-%d-%s", s.idx, s.uniq, r.Letters(5, "0123456789abcdef"))
+	switch r.Weighted([]int{1, 1, 10, 3, 1}) {
+	case 0:
+		return nil, ""
+	case 1:
+		return []byte(r.Pick([]string{"a", "\r\n", ".", "x\r\n.\r\n", "no newline"})), ""
+	}
+	var b strings.Builder
+	b.WriteString("From: a@hdr.test\r\nSubject: s" + strconv.Itoa(s.uniq) + "\r\n" + marker + "\r\n\r\n")
+	lines := r.Range(0, 12)
+	for i := 0; i < lines; i++ {
+		switch r.Intn(8) {
+		case 0:
+			b.WriteString(".")
+		case 1:
+			b.WriteString(".." + r.Letters(3, "ab."))
+		case 2:
+			b.WriteString("")
+		default:
+			b.WriteString(r.Letters(r.Range(1, 78), "abcdefghijklmnopqrstuvwxyz ,."))
+		}
+		b.WriteString("\r\n")
+	}
+	switch r.Intn(14) {
+	case 0:
+		b.WriteString(strings.Repeat("k", 70*1024) + "\r\n") // one long line (> 64 KiB)
+	case 1:
+		for b.Len() < 100*1024 {
+			b.WriteString(strings.Repeat("m", 76) + "\r\n")
+		}
+	case 2, 3:
+		for n := r.Range(1000, 6000); b.Len() < n; {
+			b.WriteString(r.Letters(60, "abcdefghij ") + "\r\n")
+		}
+	}
+	if r.Chance(1, 6) {
+		b.WriteString("last line without newline")
+	}
+	return []byte(b.String()), marker
+}
+
+func (s *psess) add(box string) {
+	src, _ := s.genSource()
+	id, err := s.env.Store.AddMessage(sut.NewDelivery(box, &mail.Address{Address: "a@hdr.test"},
+		[]*mail.Address{{Address: box + "@inbucket.test"}}, "s"+strconv.Itoa(s.uniq), time.Now(), src))
+	if err != nil {
+		panic(fmt.Sprintf("harness: AddMessage(%s): %v", box, err))
+	}
+	s.live[box] = append(s.live[box], id)
+}
+
+func runSession(c *fw.Ctx, idx int, r *fw.Rand) {
+	conf := sut.DefaultConf()
+	backend := []string{"mem", "file"}[(idx/16+idx)%2] // both back ends in every batch (8 or 16 children)
+	if backend == "file" {
+		dir := c.TempDir("c13fs")
+		defer os.RemoveAll(dir)
+		conf.Storage.Type = "file"
+		conf.Storage.Params = map[string]string{"path": dir}
+	}
+	env, err := sut.NewEnv(conf, backend)
+	if err != nil {
+		panic(err)
+	}
+	s := &psess{c: c, r: r, idx: idx, backend: backend, env: env, state: "AUTH", live: map[string][]string{},
+		removedBy: map[string]bool{}, events: map[string]bool{}}
+	nmain := r.Weighted([]int{1, 2, 3, 3, 3, 2, 2, 1, 2})
+	// Add more than wanted and remove the surplus again, so that store ids differ from positions.
+	surplus := r.Intn(3)
+	for i := 0; i < nmain+surplus; i++ {
+		s.add("main")
+	}
+	for ; surplus > 0; surplus-- {
+		ids := s.live["main"]
+		k := r.Intn(len(ids))
+		if err := env.Store.RemoveMessage("main", ids[k]); err != nil {
+			panic(fmt.Sprintf("harness: RemoveMessage: %v", err))
+		}
+		s.live["main"] = append(append([]string{}, ids[:k]...), ids[k+1:]...)
+	}
+	for i := r.Range(1, 2); i > 0; i-- {
+		s.add("other")
+	}
+	c.Count("sessions:"+backend, 1)
+	s.ps = env.StartPOP3()
+	defer func() {
+		if !s.ps.Ended() {
+			if !s.ps.Close() {
+				c.Hang("pop3-session-end", "POP3 session did not end after the client closed", "")
+			}
+		}
+	}()
+	if _, ok := s.ps.Greeting(); !ok {
+		s.fail("no-greeting", "no single +OK greeting")
+		return
+	}
+	maxLines := r.Range(5, 40)
+	for n := 0; n < maxLines && !s.over && !s.failed; n++ {
+		if s.state == "TRANS" && r.Chance(1, 5) {
+			s.external(s.box)
+		} else if s.state == "AUTH" && s.userKnown && r.Chance(1, 6) {
+			// between USER and the login proper: the snapshot is the mailbox at login
+			s.external(s.user)
+			c.Count("external_change_between_user_and_pass", 1)
+		}
+		cm := s.next()
+		if cm.kind == "close" {
+			break
+		}
+		s.play(cm)
+	}
+	if s.failed {
+		return
+	}
+	s.finish()
+	if s.failed {
+		return
+	}
+	if s.compared > 0 {
+		var ev []string
+		for e := range s.events {
+			ev = append(ev, e)
+		}
+		sort.Strings(ev)
+		c.NonTrivial(fmt.Sprintf("%s|%d|%s|%s", backend, nmain, s.ending, strings.Join(ev, ",")))
+	}
+	c.Sample(map[string]any{"backend": backend, "messages": nmain, "ending": s.ending, "trace_head": head(s.ps.Trace, 16)})
+}
+
+func head(t []sut.Exchange, n int) []sut.Exchange {
+	if len(t) > n {
+		return t[:n]
+	}
+	return t
+}
+
+// external changes the logged-in mailbox behind the session's back.
+func (s *psess) external(box string) {
+	r := s.r
+	if s.state != "TRANS" {
+		if len(s.live[box]) > 0 && r.Bool() {
+			ids := s.live[box]
+			k := r.Intn(len(ids))
+			if err := s.env.Store.RemoveMessage(box, ids[k]); err != nil {
+				panic(fmt.Sprintf("harness: RemoveMessage(%s,%s): %v", box, ids[k], err))
+			}
+			s.live[box] = append(append([]string{}, ids[:k]...), ids[k+1:]...)
+			return
+		}
+		s.add(box)
+		return
+	}
+	if len(s.live[s.box]) > 0 && r.Bool() {
+		ids := s.live[s.box]
+		k := r.Intn(len(ids))
+		id := ids[k]
+		if err := s.env.Store.RemoveMessage(s.box, id); err != nil {
+			panic(fmt.Sprintf("harness: RemoveMessage(%s,%s): %v", s.box, id, err))
+		}
+		s.live[s.box] = append(append([]string{}, ids[:k]...), ids[k+1:]...)
+		for _, m := range s.S {
+			if m.id == id {
+				s.removedBy[id] = true
+				s.c.Count("external_removes_of_snapshot_members", 1)
+			}
+		}
+		s.extRem = true
+		s.c.Count("external_removes", 1)
+		return
+	}
+	s.add(s.box)
+	s.extAdd = true
+	s.c.Count("external_adds", 1)
+}
+
+// takeSnapshot reads mailbox box the way any client of the store can, just before a login command.
+func (s *psess) takeSnapshot(box string) []snapMsg {
+	ms, err := s.env.Store.GetMessages(box)
+	if err != nil {
+		return nil
+	}
+	var out []snapMsg
+	for _, m := range ms {
+		sn := sut.SnapMsg(m, true)
+		out = append(out, snapMsg{id: sn.ID, size: sn.Size, marker: markerRE.FindString(sn.Source)})
+	}
+	return out
+}
+
+// finish ends the session if necessary and compares the store with what the ending allows.
+func (s *psess) finish() {
+	commit := s.ending == "quit-transaction"
+	if !s.over {
+		s.over = true
+		s.ending = "close-" + strings.ToLower(s.state)
+		if !s.ps.Close() {
+			s.c.Hang("pop3-session-end", "POP3 session did not end after the client closed", "")
+			s.failed = true
+			return
+		}
+	} else if !s.ps.Ended() && !s.ps.WaitEnd() {
+		s.c.Hang("pop3-session-end", "POP3 session did not end after QUIT", "")
+		s.failed = true
+		return
+	}
+	nmarked := 0
+	for _, m := range s.marked {
+		if m {
+			nmarked++
+		}
+	}
+	label := s.ending
+	switch {
+	case s.state == "TRANS" && commit && nmarked > 0:
+		label = "quit-transaction-with-marks"
+	case s.state == "TRANS" && commit:
+		label = "quit-transaction-no-marks"
+	case s.state == "TRANS" && nmarked > 0:
+		label = "close-with-marks"
+	case s.ending == "quit-auth":
+		label = "quit-authorization"
+	}
+	lenientQuit := s.ending == "quit-refused"
+	s.c.Count("end:"+label, 1)
+	s.ending = label
+	if s.state == "LENIENT" && s.anyDele {
+		s.c.Count("store_not_compared_noncanonical_login", 1)
+		return
+	}
+	expect := map[string][]string{}
+	for b, ids := range s.live {
+		expect[b] = ids
+	}
+	if s.state == "TRANS" && commit {
+		var keep []string
+		for _, id := range s.live[s.box] {
+			del := false
+			for i, m := range s.S {
+				if m.id == id && s.marked[i] {
+					del = true
+				}
+			}
+			if !del {
+				keep = append(keep, id)
+			}
+		}
+		expect[s.box] = keep
+	}
+	extra := []string{"main", "other", "nobody", "Main"}
+	if s.box != "" {
+		extra = append(extra, s.box)
+	}
+	snap, err := sut.Snapshot(s.env.Store, extra, false)
+	if err != nil {
+		s.fail("store-unreadable", err.Error())
+		return
+	}
+	names := map[string]bool{}
+	for n := range snap {
+		names[n] = true
+	}
+	for n := range expect {
+		names[n] = true
+	}
+	var sorted []string
+	for n := range names {
+		sorted = append(sorted, n)
+	}
+	sort.Strings(sorted)
+	for _, n := range sorted {
+		var got []string
+		for _, m := range snap[n] {
+			got = append(got, m.ID)
+		}
+		want := expect[n]
+		if strings.Join(got, ",") == strings.Join(want, ",") {
+			continue
+		}
+		if lenientQuit && n == s.box && subseq(got, s.live[n]) {
+			continue
+		}
+		key := "store-changed-by-session"
+		switch {
+		case !commit && len(got) < len(want):
+			key = "deleted-without-quit"
+		case commit && len(got) > len(want):
+			key = "quit-kept-marked-message"
+		case commit && len(got) < len(want):
+			key = "quit-removed-unmarked-message"
+		case commit:
+			key = "quit-removed-wrong-message"
+		}
+		s.fail(key, fmt.Sprintf("after ending %q mailbox %q holds ids %v, expected %v (live before the ending %v)", s.ending, n, got, want, s.live[n]))
+		return
+	}
+	s.c.Count("store_compared_after_session", 1)
+}
+
+func subseq(a, b []string) bool {
+	j := 0
+	for _, x := range a {
+		for j < len(b) && b[j] != x {
+			j++
+		}
+		if j == len(b) {
+			return false
+		}
+		j++
+	}
+	return true
+}
+
+// ---------------------------------------------------------------------------------------------
+// commands
+// ---------------------------------------------------------------------------------------------
+
+type cmd struct {
+	text     string
+	kind     string // STAT, LIST, LIST-n, UIDL, UIDL-n, DELE, RETR, TOP, RSET, NOOP, CAPA, USER, PASS, APOP, QUIT, STLS, unknown, empty, long-1m
+	verb     string
+	argClass string // "", valid, marked, zero, negative, over, nonnumeric, 2^31.., extra, double-space, ...
+	strict   bool   // the argument is a plain decimal number (or plainly not a number) on its own
+	val      int64  // value of the first number, 0 if none / out of int64
+	hasVal   bool
+	canon    bool   // USER/APOP: canonical shape
+	name     string // USER/APOP: mailbox named
+	tolerant bool
+	topOK    bool // TOP: second argument is a plain non-negative number
+}
+
+func (s *psess) numArg() (text, class string, strict bool, val int64, has bool) {
+	r := s.r
+	n := len(s.S)
+	var unmarked, marked []int
+	for i := range s.S {
+		if s.marked[i] {
+			marked = append(marked, i+1)
+		} else {
+			unmarked = append(unmarked, i+1)
+		}
+	}
+	switch r.Weighted([]int{40, 12, 5, 5, 6, 5, 2, 2, 2, 2, 2, 2, 2, 3, 3, 3}) {
+	case 0:
+		if len(unmarked) > 0 {
+			v := unmarked[r.Intn(len(unmarked))]
+			return strconv.Itoa(v), "valid", true, int64(v), true
+		}
+		fallthrough
+	case 1:
+		if len(marked) > 0 {
+			v := marked[r.Intn(len(marked))]
+			return strconv.Itoa(v), "marked", true, int64(v), true
+		}
+		return strconv.Itoa(n + 1), "over", true, int64(n + 1), true
+	case 2:
+		return "0", "zero", true, 0, true
+	case 3:
+		v := -r.Range(1, 3)
+		return strconv.Itoa(v), "negative", true, int64(v), true
+	case 4:
+		v := n + 1 + r.Intn(3)*r.Intn(50)
+		return strconv.Itoa(v), "over", true, int64(v), true
+	case 5:
+		return r.Pick([]string{"abc", "1x", "x1", "1.0", "0x1", "one", "1e0", "1,2", "*", "#1"}), "nonnumeric", true, 0, false
+	case 6:
+		return "2147483647", "2^31-1", true, 2147483647, true
+	case 7:
+		return "2147483648", "2^31", true, 2147483648, true
+	case 8:
+		return "4294967297", "2^32+1", true, 4294967297, true
+	case 9:
+		return "9223372036854775808", "2^63", true, 0, false
+	case 10:
+		return r.Pick([]string{"18446744073709551616", "18446744073709551617"}), "2^64", true, 0, false
+	case 11:
+		v := 1 + r.Intn(n+1)
+		return "+" + strconv.Itoa(v), "signed", false, int64(v), true
+	case 12:
+		v := 1 + r.Intn(n+1)
+		return "0" + strconv.Itoa(v), "zero-padded", false, int64(v), true
+	case 13:
+		v := 1 + r.Intn(n+1)
+		return strconv.Itoa(v) + " " + r.Pick([]string{"2", "x", "1", strconv.Itoa(v)}), "extra", false, int64(v), true
+	case 14:
+		v := 1 + r.Intn(n+1)
+		return " " + strconv.Itoa(v), "double-space", false, int64(v), true
+	}
+	v := 1 + r.Intn(n+1)
+	return strconv.Itoa(v) + " ", "trailing-space", false, int64(v), true
+}
+
+func caseVerb(r *fw.Rand, s string) string {
+	if !r.Chance(1, 4) {
+		return s
+	}
+	i := strings.IndexByte(s, ' ')
+	if i < 0 {
+		i = len(s)
+	}
+	return gen.RandCase(r, s[:i]) + s[i:]
+}
+
+func (s *psess) numCmd(verb string) cmd {
+	t, class, strict, v, has := s.numArg()
+	kind := verb
+	if verb == "LIST" || verb == "UIDL" {
+		kind = verb + "-n"
+	}
+	cm := cmd{text: verb + " " + t, kind: kind, verb: verb, argClass: class, strict: strict, val: v, hasVal: has}
+	if verb == "TOP" {
+		k := s.r.Weighted([]int{10, 1, 1, 1, 1})
+		switch k {
+		case 0:
+			cm.text += " " + s.r.Pick([]string{"0", "1", "3", "1000"})
+			cm.topOK = true
+		case 1:
+			cm.text += " -1"
+		case 2:
+			cm.text += " abc"
+		case 3: // missing
+		case 4:
+			cm.text += " 1 2"
+		}
+		if class == "extra" || class == "trailing-space" {
+			cm.topOK = false
+		}
+	}
+	cm.text = caseVerb(s.r, cm.text)
+	return cm
+}
+
+func (s *psess) plain(text, kind string) cmd {
+	v := text
+	if i := strings.IndexByte(v, ' '); i >= 0 {
+		v = v[:i]
+	}
+	return cmd{text: caseVerb(s.r, text), kind: kind, verb: strings.ToUpper(v), strict: !strings.Contains(text, " ")}
+}
+
+func (s *psess) userCmd() cmd {
+	r := s.r
+	name := r.Pick([]string{"main", "main", "main", "main", "main", "other", "nobody", "Main"})
+	switch r.Weighted([]int{12, 1, 1, 1, 1}) {
+	case 0:
+		return cmd{text: caseVerb(r, "USER "+name), kind: "USER", verb: "USER", canon: true, name: name}
+	case 1:
+		return cmd{text: "USER", kind: "USER-odd", verb: "USER"}
+	case 2:
+		return cmd{text: "USER " + name + " extra", kind: "USER-odd", verb: "USER"}
+	case 3:
+		return cmd{text: "USER  " + name, kind: "USER-odd", verb: "USER"}
+	}
+	return cmd{text: "USER " + name + " ", kind: "USER-odd", verb: "USER"}
+}
+
+func (s *psess) passCmd() cmd {
+	t := s.r.Pick([]string{"PASS secret", "PASS secret", "PASS secret", "PASS x", "PASS", "PASS a b", "PASS  x", "PASS main"})
+	return cmd{text: caseVerb(s.r, t), kind: "PASS", verb: "PASS"}
+}
+
+func (s *psess) apopCmd() cmd {
+	r := s.r
+	name := r.Pick([]string{"main", "main", "main", "main", "other", "nobody"})
+	const digest = "c4c9334bac560ecc979e58001b3e22fb"
+	switch r.Weighted([]int{10, 1, 1, 1, 1}) {
+	case 0:
+		return cmd{text: caseVerb(r, "APOP "+name+" "+digest), kind: "APOP", verb: "APOP", canon: true, name: name}
+	case 1:
+		return cmd{text: "APOP", kind: "APOP-odd", verb: "APOP"}
+	case 2:
+		return cmd{text: "APOP " + name, kind: "APOP-odd", verb: "APOP"}
+	case 3:
+		return cmd{text: "APOP " + name + " " + digest + " extra", kind: "APOP-odd", verb: "APOP"}
+	}
+	return cmd{text: "APOP  " + name + " " + digest, kind: "APOP-odd", verb: "APOP"}
+}
+
+func (s *psess) junk() cmd {
+	r := s.r
+	switch r.Weighted([]int{6, 4, 1, 2}) {
+	case 0:
+		t := r.Pick([]string{"FOO", "XYZZY 1", "AUTH PLAIN", "LISTT", "STA", "HELO x", "GET / HTTP/1.1", "+OK", "-ERR", ".", "DELE1", "\x00\x01\x02", "R\xffTR 1"})
+		return cmd{text: t, kind: "unknown", verb: "?"}
+	case 1:
+		return cmd{text: r.Pick([]string{"", "", " ", "  "}), kind: "empty", verb: "?"}
+	case 2:
+		t := strings.Repeat(r.Letters(1, "Aa9"), 1<<20)
+		if r.Bool() {
+			t = "LIST " + t
+		}
+		return cmd{text: t, kind: "long-1m", verb: "?", tolerant: true}
+	}
+	return cmd{text: r.Pick([]string{"STLS", "CAPA", "CAPA x"}), kind: "CAPA-STLS", verb: "?"}
+}
+
+func (s *psess) next() cmd {
+	r := s.r
+	if s.state == "AUTH" {
+		if r.Chance(60, 100) {
+			// make progress towards a login
+			if r.Chance(1, 3) {
+				return s.apopCmd()
+			}
+			if s.userKnown {
+				return s.passCmd()
+			}
+			return s.userCmd()
+		}
+		switch r.Weighted([]int{10, 8, 8, 10, 5, 4, 2}) {
+		case 0:
+			return s.userCmd()
+		case 1:
+			return s.passCmd()
+		case 2:
+			return s.apopCmd()
+		case 3:
+			return s.transCmd()
+		case 4:
+			return s.junk()
+		case 5:
+			return s.plain("QUIT", "QUIT")
+		}
+		return cmd{kind: "close"}
+	}
+	switch r.Weighted([]int{86, 4, 3, 4, 3}) {
+	case 0:
+		return s.transCmd()
+	case 1:
+		return s.junk()
+	case 2:
+		return []cmd{s.userCmd(), s.passCmd(), s.apopCmd()}[r.Intn(3)]
+	case 3:
+		return s.plain(r.Pick([]string{"QUIT", "QUIT", "QUIT", "QUIT now"}), "QUIT")
+	}
+	return cmd{kind: "close"}
+}
+
+func (s *psess) transCmd() cmd {
+	r := s.r
+	switch r.Weighted([]int{12, 9, 10, 7, 9, 16, 6, 8, 5, 3, 2}) {
+	case 0:
+		return s.plain(r.Pick([]string{"STAT", "STAT", "STAT", "STAT", "STAT 1", "STAT "}), "STAT")
+	case 1:
+		return s.plain("LIST", "LIST")
+	case 2:
+		return s.numCmd("LIST")
+	case 3:
+		return s.plain("UIDL", "UIDL")
+	case 4:
+		return s.numCmd("UIDL")
+	case 5:
+		return s.numCmd("DELE")
+	case 6:
+		return s.plain(r.Pick([]string{"RSET", "RSET", "RSET", "RSET 1"}), "RSET")
+	case 7:
+		return s.numCmd("RETR")
+	case 8:
+		return s.numCmd("TOP")
+	case 9:
+		return s.plain(r.Pick([]string{"NOOP", "NOOP", "NOOP x"}), "NOOP")
+	}
+	switch r.Intn(4) {
+	case 0:
+		return s.plain("DELE", "DELE-noarg")
+	case 1:
+		return s.plain("RETR", "RETR-noarg")
+	case 2:
+		return s.plain("TOP", "TOP-noarg")
+	}
+	return s.plain("CAPA", "CAPA")
+}
+
+// ---------------------------------------------------------------------------------------------
+// playing one command and judging the reply
+// ---------------------------------------------------------------------------------------------
+
+var countRE = regexp.MustCompile(`(\d+) messages`)
+
+func outcome(rep sut.POP3Reply) string {
+	if rep.OK {
+		return "ok"
+	}
+	return "err"
+}
+
+func (s *psess) play(cm cmd) {
+	c := s.c
+	var cand []snapMsg
+	candBox := ""
+	if s.state == "AUTH" {
+		switch {
+		case cm.verb == "PASS" && s.userKnown:
+			candBox = s.user
+		case cm.verb == "APOP" && cm.canon:
+			candBox = cm.name
+		}
+		if candBox != "" {
+			cand = s.takeSnapshot(candBox)
+		}
+	}
+	rep, closed, ok := s.ps.Step([]byte(cm.text + "\r\n"))
+	if !ok {
+		c.Hang("pop3-no-quiescence", "session neither idle nor closed after command kind "+cm.kind, "")
+		s.failed = true
+		return
+	}
+	c.Count("commands_sent", 1)
+	c.Count("kind:"+cm.kind, 1)
+	if cm.argClass != "" {
+		c.Count("arg:"+cm.argClass, 1)
+	}
+	if len(rep.Raw) == 0 {
+		if closed && cm.tolerant {
+			c.Count("tolerant_line_ended_session", 1)
+			s.over = true
+			s.ending = "closed-by-server"
+			return
+		}
+		s.fail("no-reply:"+cm.kind, fmt.Sprintf("no reply to %s (closed=%v)", fw.Q(cm.text), closed))
+		return
+	}
+	if rep.Malformed != "" {
+		s.fail("malformed-reply:"+cm.kind, fmt.Sprintf("after %s: %s", fw.Q(cm.text), rep.Malformed))
+		return
+	}
+	c.Count("replies_observed", 1)
+	st := s.state
+	s.events[st+"|"+cm.kind+"|"+cm.argClass+"|"+outcome(rep)] = true
+
+	// ---- one reply per command ----
+	verb := cm.verb
+	up := strings.ToUpper(strings.TrimRight(cm.text, " "))
+	multiAllowed := up == "LIST" || up == "UIDL" || verb == "RETR" || verb == "TOP" || strings.HasPrefix(up, "CAPA")
+	n := int(cm.val)
+	inRange := cm.hasVal && cm.val >= 1 && cm.val <= int64(len(s.S))
+	extRemoved := st == "TRANS" && inRange && s.removedBy[s.S[n-1].id]
+	if rep.Multi {
+		switch {
+		case (verb == "RETR" || verb == "TOP") && extRemoved && !rep.Terminated:
+			// The message left the store behind the session's back; not covered by the statement.
+			c.Count("retr_of_externally_removed_message_broken_reply", 1)
+			return
+		case !multiAllowed || rep.Err:
+			s.fail("multiple-replies:"+cm.kind, fmt.Sprintf("more than one reply line to %s: %s", fw.Q(cm.text), fw.Q(string(rep.Raw))))
+			return
+		case !rep.Terminated:
+			s.fail("unterminated-reply:"+cm.kind, fmt.Sprintf("multi-line reply to %s is not terminated by a dot line: %s", fw.Q(cm.text), fw.Q(string(rep.Raw))))
+			return
+		case len(rep.Extra) > 0:
+			s.fail("multiple-replies:"+cm.kind, fmt.Sprintf("output after the terminating dot of the reply to %s: %s", fw.Q(cm.text), fw.Q(string(rep.Extra))))
+			return
+		}
+	} else if rep.OK && st != "AUTH" && (up == "LIST" || up == "UIDL" || verb == "RETR" || verb == "TOP") {
+		s.fail("unterminated-reply:"+cm.kind, fmt.Sprintf("+OK to %s without the multi-line body and terminator: %s", fw.Q(cm.text), fw.Q(string(rep.Raw))))
+		return
+	}
+
+	// ---- QUIT ----
+	if verb == "QUIT" {
+		if rep.OK {
+			if !closed {
+				s.fail("session-continues-after-quit", "connection still open and session reading after +OK to QUIT")
+				return
+			}
+			s.over = true
+			switch st {
+			case "TRANS":
+				s.ending = "quit-transaction"
+			case "AUTH":
+				s.ending = "quit-auth"
+			default:
+				s.ending = "quit-lenient"
+			}
+			return
+		}
+		if closed {
+			s.over = true
+			s.ending = "quit-refused"
+		}
+		return
+	}
+	if closed {
+		s.over = true
+		s.ending = "closed-by-server"
+		c.Count("server_closed_unexpectedly", 1)
+		return
+	}
+
+	switch st {
+	case "AUTH":
+		switch verb {
+		case "USER":
+			if rep.OK {
+				s.userKnown, s.user = cm.canon, cm.name
+			}
+		case "PASS", "APOP":
+			if rep.OK {
+				if candBox == "" {
+					s.state = "LENIENT"
+					c.Count("logins_noncanonical", 1)
+					return
+				}
+				s.state, s.box, s.S = "TRANS", candBox, cand
+				s.marked = make([]bool, len(cand))
+				if verb == "PASS" {
+					c.Count("logins_user_pass", 1)
+				} else {
+					c.Count("logins_apop", 1)
+				}
+				if m := countRE.FindStringSubmatch(rep.First); m != nil && m[1] != strconv.Itoa(len(cand)) {
+					s.fail("login-count", fmt.Sprintf("login reply %q but mailbox %q held %d messages immediately before the login", rep.First, candBox, len(cand)))
+					return
+				}
+				s.compared++
+			}
+		}
+		return
+	case "LENIENT":
+		if verb == "DELE" && rep.OK {
+			s.anyDele = true
+		}
+		return
+	}
+
+	// ---- TRANSACTION: M-pop3 ----
+	if verb == "PASS" || verb == "APOP" {
+		if rep.OK {
+			// A second login inside a session is not covered by the statement; stop judging.
+			s.state = "LENIENT"
+			s.anyDele = true
+			c.Count("relogin_acknowledged", 1)
+		}
+		return
+	}
+	unmarkedOK := inRange && !s.marked[n-1]
+	switch cm.kind {
+	case "STAT":
+		if rep.Err {
+			if cm.strict {
+				s.fail("stat-refused", "STAT refused in TRANSACTION state: "+rep.First)
+			}
+			return
+		}
+		var cnt int
+		var size int64
+		for i, m := range s.S {
+			if !s.marked[i] {
+				cnt++
+				size += m.size
+			}
+		}
+		want := fmt.Sprintf("+OK %d %d", cnt, size)
+		if rep.First != want && !strings.HasPrefix(rep.First, want+" ") {
+			s.fail("stat-mismatch", fmt.Sprintf("STAT answered %q, model says %q", rep.First, want))
+			return
+		}
+		s.comparedOne("stat_compared")
+	case "LIST", "UIDL":
+		if rep.Err {
+			s.fail(strings.ToLower(cm.kind)+"-refused", cm.kind+" refused in TRANSACTION state: "+rep.First)
+			return
+		}
+		var want []string
+		for i, m := range s.S {
+			if !s.marked[i] {
+				if cm.kind == "LIST" {
+					want = append(want, fmt.Sprintf("%d %d", i+1, m.size))
+				} else {
+					want = append(want, fmt.Sprintf("%d %s", i+1, m.id))
+				}
+			}
+		}
+		var got []string
+		for _, l := range rep.Body {
+			got = append(got, string(l))
+		}
+		if strings.Join(got, "|") != strings.Join(want, "|") {
+			s.fail(strings.ToLower(cm.kind)+"-mismatch", fmt.Sprintf("%s listed %v, model says %v", cm.kind, got, want))
+			return
+		}
+		if m := countRE.FindStringSubmatch(rep.First); m != nil && m[1] != strconv.Itoa(len(want)) {
+			s.fail(strings.ToLower(cm.kind)+"-header-count", fmt.Sprintf("%s reply starts %q but lists %d messages", cm.kind, rep.First, len(want)))
+			return
+		}
+		s.comparedOne(strings.ToLower(cm.kind) + "_compared")
+	case "LIST-n", "UIDL-n":
+		exp := ""
+		if unmarkedOK {
+			if cm.kind == "LIST-n" {
+				exp = fmt.Sprintf("+OK %d %d", n, s.S[n-1].size)
+			} else {
+				exp = fmt.Sprintf("+OK %d %s", n, s.S[n-1].id)
+			}
+		}
+		if rep.OK {
+			if exp == "" {
+				s.fail(strings.ToLower(cm.kind)+"-accepted-invalid", fmt.Sprintf("%s answered %q but that is not an unmarked message of the snapshot (arg class %s)", fw.Q(cm.text), rep.First, cm.argClass))
+				return
+			}
+			if rep.First != exp && !strings.HasPrefix(rep.First, exp+" ") {
+				s.fail(strings.ToLower(cm.kind)+"-mismatch", fmt.Sprintf("%s answered %q, model says %q", fw.Q(cm.text), rep.First, exp))
+				return
+			}
+		} else if exp != "" && cm.strict {
+			s.fail(strings.ToLower(cm.kind)+"-refused-valid", fmt.Sprintf("%s refused (%s) although message %d is in the snapshot and unmarked", fw.Q(cm.text), rep.First, n))
+			return
+		}
+		s.comparedOne(strings.ToLower(strings.Replace(cm.kind, "-", "_", 1)) + "_compared")
+	case "DELE":
+		if rep.OK {
+			if !unmarkedOK {
+				key := "dele-accepted-invalid"
+				if inRange {
+					key = "dele-accepted-twice"
+				}
+				s.fail(key, fmt.Sprintf("%s answered %q but that is not an unmarked message of the snapshot (arg class %s)", fw.Q(cm.text), rep.First, cm.argClass))
+				return
+			}
+			s.marked[n-1] = true
+			c.Count("dele_marked", 1)
+		} else {
+			if unmarkedOK && cm.strict {
+				s.fail("dele-refused-valid", fmt.Sprintf("%s refused (%s) although message %d is in the snapshot and unmarked", fw.Q(cm.text), rep.First, n))
+				return
+			}
+			if inRange && s.marked[n-1] {
+				c.Count("dele_refused_already_marked", 1)
+			}
+		}
+		s.comparedOne("dele_compared")
+	case "DELE-noarg":
+		if rep.OK {
+			// which message was marked cannot be known: stop judging this session
+			s.state, s.anyDele = "LENIENT", true
+		}
+	case "RSET":
+		if rep.OK {
+			for i := range s.marked {
+				if s.marked[i] {
+					c.Count("rset_with_marks", 1)
+					break
+				}
+			}
+			for i := range s.marked {
+				s.marked[i] = false
+			}
+		}
+	case "RETR", "TOP":
+		if cm.kind == "TOP" && !cm.topOK {
+			return // second argument odd: only the reply shape is judged
+		}
+		if extRemoved || (inRange && s.marked[n-1]) {
+			c.Count(strings.ToLower(cm.kind)+"_not_judged", 1)
+			return
+		}
+		if rep.OK {
+			if !inRange {
+				s.fail(strings.ToLower(cm.kind)+"-accepted-invalid", fmt.Sprintf("%s answered %q but the snapshot has %d messages (arg class %s)", fw.Q(cm.text), rep.First, len(s.S), cm.argClass))
+				return
+			}
+			if mk := s.S[n-1].marker; mk != "" {
+				found := false
+				for _, l := range rep.Body {
+					if string(l) == mk {
+						found = true
+					}
+				}
+				if !found {
+					s.fail(strings.ToLower(cm.kind)+"-wrong-message", fmt.Sprintf("%s did not return message %d of the snapshot (marker %q absent); first lines %s", fw.Q(cm.text), n, mk, fw.Q(string(rep.Raw))))
+					return
+				}
+			}
+		} else if inRange && cm.strict {
+			s.fail(strings.ToLower(cm.kind)+"-refused-valid", fmt.Sprintf("%s refused (%s) although message %d is in the snapshot", fw.Q(cm.text), rep.First, n))
+			return
+		}
+		s.comparedOne(strings.ToLower(cm.kind) + "_compared")
+	}
+}
+
+func (s *psess) comparedOne(counter string) {
+	s.compared++
+	s.c.Count(counter, 1)
+	if s.extAdd {
+		s.c.Count("compared_after_external_add", 1)
+	}
+	if s.extRem {
+		s.c.Count("compared_after_external_remove", 1)
+	}
+}
